@@ -135,7 +135,7 @@ def oracle(c, hres, sl):
         return 'no result / panic: %s' % hres
     de, tr = sl
     if de is None or tr is None:
-        return None
+        return 'no slice reference for this input (deserialize / try_from_slice on the plain slice gave no answer)'
     n = len(c['data']) // 2
     de_p = split_ok(de)
     consumed = None
